@@ -311,10 +311,12 @@ package table
 // the local AS for an empty or confederation-only path
 //@ func (*ROATable).Validate
 //@   requires rt != nil && path != nil
-//@   claims post at-call
+//@   claims post at-call at-return
 //@   at-call tree.WalkMatch( requires (asPath == nil || len(asPath.Value) == 0) ==> as == ownAs
 //@   at-call tree.WalkMatch( requires asPath != nil && len(asPath.Value) > 0 && (asPath.Value[len(asPath.Value)-1].GetType() == bgp.BGP_ASPATH_ATTR_TYPE_CONFED_SEQ || asPath.Value[len(asPath.Value)-1].GetType() == bgp.BGP_ASPATH_ATTR_TYPE_CONFED_SET) ==> as == ownAs
 //@   at-call tree.WalkMatch( requires asPath != nil && len(asPath.Value) > 0 ==> asPath.Value[len(asPath.Value)-1].GetType() != bgp.BGP_ASPATH_ATTR_TYPE_SET
+// the early NotFound return (no lookup) is taken only for a last segment that is neither a SEQUENCE nor a confederation segment
+//@   at-return requires param.GetType() != bgp.BGP_ASPATH_ATTR_TYPE_SEQ && param.GetType() != bgp.BGP_ASPATH_ATTR_TYPE_CONFED_SEQ && param.GetType() != bgp.BGP_ASPATH_ATTR_TYPE_CONFED_SET
 //@   ensures result != nil ==> (result.Status == oc.RPKI_VALIDATION_RESULT_TYPE_VALID <==> len(result.Matched) != 0)
 //@   ensures result != nil ==> (result.Status == oc.RPKI_VALIDATION_RESULT_TYPE_INVALID <==> len(result.Matched) == 0 && (len(result.UnmatchedAs) != 0 || len(result.UnmatchedLength) != 0))
 //@   ensures result != nil ==> (result.Status == oc.RPKI_VALIDATION_RESULT_TYPE_NOT_FOUND <==> len(result.Matched) == 0 && len(result.UnmatchedAs) == 0 && len(result.UnmatchedLength) == 0)
